@@ -47,9 +47,16 @@ fn stale_table_entries(runner : &Runner) -> usize
     n
 }
 
-pub fn run_pair(case : &Case, mut stats : Option<&mut Stats>) -> Vec<Violation>
+pub fn run_pair(case : &Case, stats : Option<&mut Stats>) -> Vec<Violation>
+{
+    run_pair_probe(case, stats).0
+}
+
+/* second component: the probe saw a table entry attached to a different file at some point */
+pub fn run_pair_probe(case : &Case, mut stats : Option<&mut Stats>) -> (Vec<Violation>, bool)
 {
     let mut out = vec![];
+    let mut stale_seen = false;
     let mut a = Runner::new(case);
     let mut b = Runner::new(case);
     let clock = clock_name(case.knobs.clock);
@@ -138,10 +145,11 @@ pub fn run_pair(case : &Case, mut stats : Option<&mut Stats>) -> Vec<Violation>
                             out.push(Violation{ prop : "C18", sig : v.sig.replace("C01:", "C18:distinct-clock-cross-check:"), detail : v.detail });
                         }
                     }
-                    if let Some(s) = stats.as_deref_mut()
+                    let n = stale_table_entries(&a);
+                    if n > 0
                     {
-                        let n = stale_table_entries(&a);
-                        if n > 0 { s.add("probe.table_entry_attached_to_a_different_file", n as u64); }
+                        stale_seen = true;
+                        if let Some(s) = stats.as_deref_mut() { s.add("probe.table_entry_attached_to_a_different_file", n as u64); }
                     }
                 }
                 a.absorb(&ia);
@@ -161,7 +169,7 @@ pub fn run_pair(case : &Case, mut stats : Option<&mut Stats>) -> Vec<Violation>
             s.distinct.insert(H64::new().str(clock).u64(shape_hash(&case.rules)).u64(ops_hash(&case.ops)).get());
         }
     }
-    out
+    (out, stale_seen)
 }
 
 pub fn replay(case : &Case) -> Vec<(String, String)>
@@ -185,6 +193,7 @@ pub fn run_one(cfg : &Config, seed : u64, k : u64, stats : &mut Stats) -> Vec<Fo
     g.user_damage = rng.chance(1, 2);
     g.cleans = *rng.pick(&[10u64, 20, 30]);
     g.goals = true;
+    g.moves = false;    // a user `mv` of a same-tick file is outside C18's operation set
     g.clock = Some(if rng.chance(1, 2) { ClockMode::Distinct } else { ClockMode::Tick });
     g.policy_sched = Some(if rng.chance(1, 2) { Strategy::Serial } else { Strategy::Reverse });
     if rng.chance(1, 2)
@@ -201,46 +210,61 @@ pub fn run_one(cfg : &Config, seed : u64, k : u64, stats : &mut Stats) -> Vec<Fo
         g.cleans = *rng.pick(&[0u64, 0, 10]);
         g.twins = false;
     }
-    let epoch_mode = g.copy_rules && rng.chance(1, 2);
+    let epoch_mode = g.copy_rules && rng.chance(2, 3);
     if epoch_mode
     {
-        g.max_ops = 0;
-        g.min_ops = 0;
-        g.end_with_build = false;
-        g.max_rules = rng.range(2, 5);
+        g = epoch_gen_cfg(cfg.thorough, &mut rng);
+        g.clock = Some(if rng.chance(1, 3) { ClockMode::Distinct } else { ClockMode::Tick });
     }
     let mut gen = Gen::new(seed, g);
     let mut case = gen.case();
     if epoch_mode
     {
-        // epochs: edit/revert some leaves from a pool of 2-3 shared values, occasionally clean a
-        // target, then build everything
         stats.inc("c18.epoch_mode_histories");
-        case.ops.clear();
         let leaves = gen.leaf_names();
         let targets : Vec<String> = gen.current_rules().iter().flat_map(|r| r.targets.clone()).collect();
-        let pool : Vec<&[u8]> = if rng.chance(1, 2) { vec![b"A", b"B"] } else { vec![b"A", b"B", b"C"] };
-        let epochs = rng.range(3, if cfg.thorough { 7 } else { 5 });
-        for e in 0..epochs
-        {
-            if e > 0
-            {
-                for l in leaves.iter()
-                {
-                    if rng.chance(3, 5) { case.ops.push(Op::Write{ path : l.clone(), content : rng.pick(&pool).to_vec() }); }
-                }
-                if targets.len() > 0 && rng.chance(1, 8)
-                {
-                    case.ops.push(Op::Clean{ goal : Some(rng.pick(&targets).clone()), sched : SchedSpec{ strategy : Strategy::Serial, seed : 0 } });
-                }
-            }
-            let goal = if targets.len() > 0 && rng.chance(1, 8) { Some(rng.pick(&targets).clone()) } else { None };
-            case.ops.push(Op::Build{ goal : goal, sched : SchedSpec{ strategy : if rng.chance(1, 2) { Strategy::Serial } else { Strategy::Reverse }, seed : 0 } });
-        }
+        let epochs = rng.range(3, if cfg.thorough { 8 } else { 6 });
+        let clean_one_in = *rng.pick(&[0u64, 3, 5, 8]);
+        case.ops = epoch_ops(&mut rng, &leaves, &targets, epochs, clean_one_in, Some(&[Strategy::Serial, Strategy::Reverse]));
     }
     if k < 3 * cfg.workers { stats.sample(case.to_j()); }
 
-    let vs = run_pair(&case, Some(stats));
+    let (mut vs, stale_seen) = run_pair_probe(&case, Some(stats));
+    let mut case = case;
+    if vs.len() == 0 && stale_seen
+    {
+        // guidance: the table holds a (hash, mtime) pair that no longer describes the file at its
+        // path.  That is latent, not yet a changed result; follow the history further — no-change
+        // builds, then more edit/revert epochs over the contents seen so far — to see whether a
+        // result ever changes.
+        stats.inc("c18.histories_extended_after_probe");
+        let leaves : Vec<String> = case.files.iter().map(|(p, _)| p.clone()).filter(|p| p != "README").collect();
+        let targets : Vec<String> = case.rules.iter().flat_map(|r| r.targets.clone()).collect();
+        let mut pool : Vec<Vec<u8>> = case.files.iter().filter(|(p, _)| p != "README").map(|(_, c)| c.clone()).collect();
+        for op in case.ops.iter() { if let Op::Write{ path, content } = op { if leaves.contains(path) && !pool.contains(content) { pool.push(content.clone()); } } }
+        for attempt in 0..12
+        {
+            let mut ext = case.clone();
+            ext.ops.push(Op::Build{ goal : None, sched : SchedSpec::serial() });
+            let epochs = 1 + attempt % 3;
+            for _ in 0..epochs
+            {
+                for l in leaves.iter()
+                {
+                    if rng.chance(3, 5) { ext.ops.push(Op::Write{ path : l.clone(), content : rng.pick(&pool).clone() }); }
+                }
+                if targets.len() > 0 && rng.chance(1, 6) { ext.ops.push(Op::Clean{ goal : Some(rng.pick(&targets).clone()), sched : SchedSpec::serial() }); }
+                ext.ops.push(Op::Build{ goal : None, sched : SchedSpec::serial() });
+            }
+            let v2 = run_pair(&ext, Some(stats));
+            if v2.len() > 0
+            {
+                vs = v2;
+                case = ext;
+                break;
+            }
+        }
+    }
     let mut found = vec![];
     let mut seen = BTreeSet::new();
     for v in vs
